@@ -734,6 +734,21 @@ def _oa_inv2(c):
                             lambda key: dkeys_pos(has0, key) < kk))
 
 
+# the key set of ordered_arguments(...) as an array-valued spec function of (signature, store,
+# flags): two calls on the same state yield the *same* key set, hence (dict iteration order being
+# modelled as a function of the key set) the same key order
+oa_keys = z3.Function('oa_keys', I, HasArr, B, B, B, B, HasArr)
+
+
+def oa_keys_def(g, has0, inc_vk, inc_def, inc_unset, inc_pos):
+  """Definitional axiom of oa_keys for one (signature, store, flags)."""
+  k = z3.Const('oak_k', Val)
+  flags = [inc_vk, inc_def, inc_unset, inc_pos, z3.BoolVal(True)]
+  arr = oa_keys(g, has0, inc_vk, inc_def, inc_unset, inc_pos)
+  full = oa_has(g, has0, k, sig_n(g), store_nvar(g, has0), lambda x: z3.BoolVal(True), flags)
+  return FA([k], arr[k] == z3.And(full, z3.Or(inc_pos, is_VStr(k))), patterns=[arr[k]])
+
+
 def _oa_post(c):
   h0, g, A, has0, val0 = _oa_terms(c)
   h = c.heap
@@ -744,6 +759,7 @@ def _oa_post(c):
                             _oa_flags(c))
   return z3.And(
       is_VRef(c.result), r >= h0.alloc, cls_is(h.cls(r), 'dict'),
+      h.hasarr(r) == oa_keys(g, has0, inc_vk, inc_def, inc_unset, inc_pos),
       FA([k], h.has(r, k) == z3.And(full(k), z3.Or(inc_pos, is_VStr(k))),
          patterns=[h.has(r, k), has0[k]]),
       FA([k], z3.Implies(h.has(r, k), h.dget(r, k) == oa_value(g, has0, val0, k)),
@@ -762,6 +778,9 @@ contract(
     defaults={'include_var_keyword': VBool(z3.BoolVal(True)), 'include_defaults': VBool(z3.BoolVal(False)),
               'include_unset': VBool(z3.BoolVal(False)), 'include_positional': VBool(z3.BoolVal(True)),
               'include_equal_to_default': VBool(z3.BoolVal(True))},
+    facts=lambda c: [('axiom', 'oa_keys', oa_keys_def(bsig(c.old, c['buildable']),
+                                                    c.old.hasarr(ref(bfields(c.old, c['buildable'])[1])),
+                                                    *_oa_flags(c)[:4]))],
     loops={0: Loop(_oa_inv0, mod=lambda c: [ref(c.v('result'))], fields=[]),
            1: Loop(_oa_inv1, mod=lambda c: [ref(c.v('result'))], fields=[]),
            2: Loop(_oa_inv2, mod=lambda c: [ref(c.v('result'))], fields=[])},
